@@ -373,6 +373,18 @@ def env_exec(repo, cls):
                 n = alg.total(alg.normalise(parts[1]))
                 return alg.content(it, ("GCM", ciphers[lab(recv)]) + tuple(tuple(alg.normalise(p_)) if p_ is not None else ("?",) for p_ in parts), (n + 16) if n is not None else None)
             return None
+        # the parameter string is C20.order's business and is computed once, outside the byte algebra (whose mutable
+        # bytearray objects are not what a class-body escape table wants); inside, a call of urlencodeParams with the
+        # request's parameter list gives that string
+        plain_it = Interp(repo, {}, {}, hooks={"extcall": lambda itp, label, args, kwargs, env, depth, e: extcall(itp, label, args, kwargs, env, depth, e) if label.split(".")[-1].rstrip("()") in ("quote", "urllib_quote", "quote_plus", "quote_from_bytes") else None})
+        plain_it.max_steps = 400000
+        known = {}
+
+        def url_params(itp, fn_, owner_, self_val, a, k):
+            if a and id(a[0]) in known:
+                return ("c", known[id(a[0])])
+            return None
+        hooks["fn:urlencodeParams"] = url_params
         hooks.update({"ext:*.generateKeyPair": gen, "ext:*.serialize": serialize, "ext:*.getPublicKey": raw, "ext:*.calculateAgreement": agree, "extcall": extcall, "ext:*.encrypt": seal})
         it = Interp(repo, cell, domains, hooks=hooks)
         it.max_steps = 400000
@@ -384,8 +396,9 @@ def env_exec(repo, cls):
             params = ("list", [("list", [("c", k_), ("c", v_)]) for k_, v_ in PARAMS])
             before = len(pairs)
             try:
-                want_pt = it.method_call(o, "urlencodeParams", [params], {}, env, 0, None)
-                want_pt = it.force(want_pt)
+                want_pt = plain_it.force(plain_it.method_call(("obj", Obj(cls)), "urlencodeParams", [params], {}, env, 0, None))
+                if want_pt[0] == "c" and isinstance(want_pt[1], str):
+                    known[id(params)] = want_pt[1]
                 r = it.method_call(o, "encryptParams", [params, KEY], {}, env, 0, None)
             except _Raise as x:
                 problems.append("call %d raises %s" % (i + 1, (x.text or "")[:60]))
